@@ -1,5 +1,6 @@
 import WebpVerif.Model.Enc
 import WebpVerif.Spec.Lossless
+import WebpVerif.Spec.LosslessP
 import WebpVerif.Model.Util
 namespace DrvEnc
 open Util
@@ -18,7 +19,14 @@ def handle (args : List String) : Option String :=
         let verdict := match VP8L.decode payload with
           | none => "spec-rejects"
           | some (w', h', img) =>
-            if w' = w ∧ h' = h ∧ VP8L.toRgba img == expected then "roundtrip-ok" else "roundtrip-differs"
+            if w' = w ∧ h' = h ∧ VP8L.toRgba img == expected then
+              -- the specification the round-trip theorem is about (C04.encode_roundtrip) must say the same
+              if w * h ≤ 300 then
+                match VP8LP.decodeFast payload.toList with
+                | some (w2, h2, img2) => if w2 = w ∧ h2 = h ∧ img2 == img.toList then "roundtrip-ok" else "twin-differs"
+                | none => "twin-rejects"
+              else "roundtrip-ok"
+            else "roundtrip-differs"
         some ("ok " ++ toHex payload ++ " S=" ++ verdict)
   | ["lengthtosymbol", len] => do
       let len ← len.toNat?
